@@ -723,8 +723,7 @@ void spinning_readers(std::uint64_t total)
       th.emplace_back([&, w] {
         ++ready;
         while (ready.load() < 4)
-        {
-        }
+          std::this_thread::yield(); // 16 partitions x 4 threads oversubscribe the machine: do not burn the quantum the others need to arrive
         for (planned const &s : plan[w])
           ctx.set(mkloc(prefixes[s.prefix]), toopt(s.level));
       });
@@ -732,8 +731,7 @@ void spinning_readers(std::uint64_t total)
       th.emplace_back([&, r] {
         ++ready;
         while (ready.load() < 4)
-        {
-        }
+          std::this_thread::yield(); // 16 partitions x 4 threads oversubscribe the machine: do not burn the quantum the others need to arrive
         seen_t &mine = seen[r];
         while (!stop.load(std::memory_order_relaxed))
           for (std::size_t k = 0; k < objs.size(); ++k)
